@@ -2,7 +2,7 @@ META = {
     "level": "fault_enumeration",
     "technique": "single-fault enumeration of put/putfo/get/getfo and of pipelined SFTPFile writes on a real SFTPClient/SFTPServer pair (the served handle rejects, fails or shortens one chosen read/write chunk with a chosen SFTP error code), outcome and destination bytes judged by the TLC trace spec; the pipelined-write bookkeeping (SftpClientProto.tla) is model-checked by TLC for 'a rejected write surfaces by close()'",
     "text": "TLC checks on the client model that a rejected pipelined write is raised no later than close() (repair toggle) and reproduces the loss with the faithful toggle. The driver then enumerates transfers: for every file size class and EVERY chunk position one run in which the server rejects that write (put/putfo) or fails that read (get/getfo), with the SFTP error codes 1..8, confirm on/off, callbacks on/off, prefetch on/off, a concurrency cap, and short reads; plus pipelined-file programs (write k chunks, one rejected, optionally a stat in between, close). The trace spec demands: the call raised, or destination bytes equal source bytes; a rejected pipelined write raised by close() at the latest",
-    "note": "trusted: TLC, the in-process server interface whose handle injects the fault, byte comparison by the driver; an EOF status injected in the middle of a download is the server declaring end of file - the truncated copy is reported as conformance, not as a violation; quick tier rotates the error codes over the positions, the thorough tier takes the full cross product for the smaller sizes",
+    "note": "putfo is also fed from file-like sources whose read(n) returns fewer than n bytes before the end of the data (getfo sinks that accept only part of a write are not generated); trusted: TLC, the in-process server interface whose handle injects the fault, byte comparison by the driver; an EOF status injected in the middle of a download is the server declaring end of file - the truncated copy is reported as conformance, not as a violation; quick tier rotates the error codes over the positions, the thorough tier takes the full cross product for the smaller sizes",
 }
 import random
 
@@ -62,6 +62,13 @@ def transfers(c):
             # the server declares EOF at that chunk (conformance only)
             ops.append((size, {"op": "get", "size": size, "confirm": False, "callback": False, "fo": False, "fault": "read_eof",
                                "pos": pos, "code": 1, "prefetch": pos % 2 == 0, "maxc": 0}, False))
+    # putfo from a source object that returns short reads before the end of its data (fixed cases)
+    j = 0
+    for size in (1000, CH, 100000, 307217):
+        for cap in (1000, 8192, CH - 1, "random"):
+            ops.append((size, {"op": "put", "size": size, "confirm": j % 2 == 0, "callback": j % 3 == 0, "fo": True, "src": cap,
+                               "fault": "source_short_reads", "pos": 0, "code": 0, "prefetch": False}, False))
+            j += 1
     progs = []
     for i, (size, op, short) in enumerate(ops):
         progs.append({"size": size, "short": short, "seed": c.seed * 31 + i, "prog": [op], "origin": "transfer"})
@@ -125,6 +132,13 @@ def run(c):
                name="a second pipelined file on the session, repaired")
     c.mc("SftpClientProto", cfg_text(constants=lib.consts(dict(fm, FinishCountsOnce=True)), invariants=["NoHang", "WriteErrorSurfaces"]),
          expect="WriteErrorSurfaces", name="mutation: _finish_responses reads as many packets as the file had outstanding")
+    # the copy loop itself: a source may return short reads before the end of its data
+    tc = {"Size": 7, "Chunk": 3, "ShortSource": True, "StopOnShortRead": False}
+    tinv = ["TransferExact", "CountRight"]
+    c.mc_holds("SftpClientProto_Transfer", cfg_text(constants=tc, invariants=tinv, properties=["Terminates"]),
+               name="transfer loop, source with short reads")
+    c.mc("SftpClientProto_Transfer", cfg_text(constants=dict(tc, StopOnShortRead=True), invariants=tinv), expect="TransferExact",
+         name="mutation: the loop stops at the first short read")
     progs = transfers(c) + pipelined_programs(c)
     lib.run_programs(c, progs, "t", {"P_silent_corruption", "P_write_error_lost", "P_blocked"})
     ntr = sum(1 for p in progs if p["origin"] == "transfer")
